@@ -22,7 +22,7 @@ def M(id, prop, kind, edits, rule=None):
 MUTANTS = [
     # ---------------- C10
     M("c10-load-stale-group-size", "C10", "break", [(QMOD, "        self.weight_group_size = self._select_weight_group_size()\n        activation_qtype = state_dict.pop", "        activation_qtype = state_dict.pop")], "C10.R6"),
-    M("c10-requantize-no-activations", "C10", "break", [(QUANT, "    quantize(model, activations=activations)", "    quantize(model)")], "C10.R7"),
+    M("c10-requantize-no-activations", "C10", "break", [(QUANT, "    quantize(model, modules=modules, activations=activations)", "    quantize(model, modules=modules)")], "C10.R7"),
     M("c10-save-swapped-scales", "C10", "break", [(QMOD, 'destination[prefix + "output_scale"] = self.output_scale if keep_vars else self.output_scale.detach()', 'destination[prefix + "output_scale"] = self.input_scale if keep_vars else self.input_scale.detach()')], "C10.R2"),
     M("c10-save-qtype-object", "C10", "break", [(QMOD, 'destination[prefix + "weight_qtype"] = "none" if self.weight_qtype is None else self.weight_qtype.name', 'destination[prefix + "weight_qtype"] = "none" if self.weight_qtype is None else self.weight_qtype')], "C10.R3"),
     M("c10-save-activation-str", "C10", "break", [(QMOD, '            "none" if self.activation_qtype is None else self.activation_qtype.name\n', '            "none" if self.activation_qtype is None else str(self.activation_qtype)\n')], "C10.R4"),
